@@ -1,5 +1,6 @@
 import DaskModel.Lemmas.LegacyOpt
 import DaskModel.Lemmas.Subs
+import DaskModel.Lemmas.SubsRename
 import DaskModel.Lemmas.SpecSubst
 import DaskModel.Lemmas.SpecFuse
 import DaskModel.Lemmas.FusedName
@@ -192,6 +193,27 @@ example : fuseOK [(.str "a", .int 1), (.str "b", .tuple [.fn 0, .str "a"]), (.st
 example : fuseOK [(.str "a", .int 1), (.str "b", .tuple [.fn 0, .str "a"]), (.str "c", .tuple [.fn 0, .str "b"])]
     [(.str "c", .tuple [.fn 0, .tuple [.fn 0, .str "a"]])] [.str "a", .str "b"] [.str "c"] = false := by decide
 
+/-- **The proved checker for outputs with renamed keys** (`fuse` / `fuse_linear` with `rename_keys=True` or a custom
+    renamer: `rv[new] = rv[old]; rv[old] = new`, references to `old` replaced by `new` or not, `old` deleted or not): when
+    `fuseOKR g h S R req` accepts, every valuation satisfying the input's equations, extended by `new ↦ value of old`,
+    satisfies the output's equations over the output's key set, and all requested keys are kept. -/
+theorem fuseOKR_sound (g h : LGraph) (S : List Obj) (R : List (Obj × Obj)) (req : List Obj)
+    (hok : fuseOKR g h S R req = true) (hKt : ∀ k ∈ g.map Prod.fst, k.keyTyped = true)
+    (cache ρ : Obj → Option Obj) (hsol : Solution g (g.map Prod.fst) cache ρ) :
+    (∀ k ∈ req, k ∈ h.map Prod.fst) ∧
+    ∀ k t, (k, t) ∈ h → extendR R ρ k = evalObj (h.map Prod.fst) (extendR R ρ) t :=
+  Dask.TaskTerm.fuseOKR_sound g h S R req hok hKt cache ρ hsol
+
+/-- non-vacuity: the doc-string example of `fuse_linear`: `{'a': 1, 'b': (inc, 'a'), 'c': (inc, 'b')}` ↦
+    `{'a-b-c': (inc, (inc, 1)), 'c': 'a-b-c'}` is accepted … -/
+example : fuseOKR [(.str "a", .int 1), (.str "b", .tuple [.fn 0, .str "a"]), (.str "c", .tuple [.fn 0, .str "b"])]
+    [(.str "a-b-c", .tuple [.fn 0, .tuple [.fn 0, .int 1]]), (.str "c", .str "a-b-c")]
+    [.str "a", .str "b"] [(.str "c", .str "a-b-c")] [.str "c"] = true := by decide
+/-- … and rejected when the new name is a key of the input graph (the other entry would be overwritten) -/
+example : fuseOKR [(.str "a", .int 1), (.str "b", .tuple [.fn 0, .str "a"]), (.str "c", .tuple [.fn 0, .str "b"])]
+    [(.str "a", .tuple [.fn 0, .tuple [.fn 0, .int 1]]), (.str "c", .str "a")]
+    [.str "b"] [(.str "c", .str "a")] [.str "c"] = false := by decide
+
 /-- non-vacuity: the doc-string example of `inline`: `z = (add, 'x', 'y')`, inlining `y = (inc, 'x')` -/
 example : subs (.str "y") (.tuple [.fn 1, .str "x"]) (.tuple [.fn 0, .str "x", .str "y"]) =
     .tuple [.fn 0, .str "x", .tuple [.fn 1, .str "x"]] := by decide
@@ -204,6 +226,48 @@ example : subs (.str "a") (.int 1) (.tuple [.fn 0, .dict [(.str "x", .str "a")],
 example : cull [(.str "x", .int 1), (.str "y", .tuple [.fn 0, .str "x"]), (.str "out", .tuple [.fn 1, .str "x", .int 10])]
     [.str "out"] = some ([(.str "out", .tuple [.fn 1, .str "x", .int 10]), (.str "x", .int 1)],
                          [(.str "out", [.str "x"]), (.str "x", [])]) := by decide
+
+/-! ### non-vacuity of the hypotheses of the substitution theorems -/
+
+/-- non-vacuity: a solution of `{'a': 1, 'b': (f, 'a')}` -/
+example : Solution [(.str "a", .int 1), (.str "b", .tuple [.fn 0, .str "a"])] [.str "a", .str "b"] (fun _ => none)
+    (fun k => if k == .str "a" then some (.int 1) else if k == .str "b" then some (.app 0 [.int 1] []) else none) := by
+  intro k
+  by_cases ha : k = .str "a"
+  · subst ha; decide
+  · by_cases hb : k = .str "b"
+    · subst hb; decide
+    · have h1 : (k == Obj.str "a") = false := by simpa using ha
+      have h2 : (k == Obj.str "b") = false := by simpa using hb
+      simp [List.lookup, h1, h2]
+
+/-- non-vacuity of the hypotheses of `inline_step_preserves_solutions` / `drop_unreferenced_preserves_values` /
+    `dag_values_unique` on `{'a': 1, 'b': (f, 'a')}` -/
+example : (Obj.str "a" ≠ .str "b") ∧
+    ([(.str "a", .int 1), (.str "b", .tuple [.fn 0, .str "a"])] : LGraph).lookup (.str "a") = some (.int 1) ∧
+    inKeys [.str "a", .str "b"] (.str "a") = true := by decide
+example : ∀ k t, k ≠ Obj.str "b" →
+    ([(.str "a", .int 1), (.str "b", .tuple [.fn 0, .str "a"])] : LGraph).lookup k = some t →
+    Obj.str "b" ∉ legacyRefs [.str "a", .str "b"] t := by
+  intro k t hk hl
+  simp only [List.lookup] at hl
+  split at hl
+  · cases hl; decide
+  · split at hl
+    · rename_i h; exact absurd (eq_of_beq h) hk
+    · cases hl
+example : ∀ k t, ([(.str "a", .int 1), (.str "b", .tuple [.fn 0, .str "a"])] : LGraph).lookup k = some t →
+    ∀ d ∈ legacyRefs [.str "a", .str "b"] t,
+      (fun o : Obj => if o == .str "b" then 1 else 0) d < (fun o : Obj => if o == .str "b" then 1 else 0) k := by
+  intro k t hl
+  simp only [List.lookup] at hl
+  split at hl
+  · cases hl; intro d hd; simp [legacyRefs, Obj.hashable] at hd
+  · split at hl
+    · rename_i h
+      have : k = .str "b" := eq_of_beq h
+      subst this; cases hl; decide
+    · cases hl
 
 /-! ## task-spec passes (dask/_task_spec.py): `cull`, `GraphNode.substitute`, `resolve_aliases`, `GraphNode.fuse`,
 `fuse_linear_task_spec`
@@ -362,5 +426,47 @@ open Dask.FusedName in
 example : enforceLimit (some 6) 6 (fun x => x.drop 7) "abcdefgXY".toList = "abcdef-XY".toList ∧
     enforceLimit (some 6) 6 (fun x => x.drop 7) "abcdefgZW".toList = "abcdef-ZW".toList ∧
     enforceLimit (some 6) 6 (fun x => x.drop 7) "abc".toList = "abc".toList := by decide
+
+open Dask.FusedName Dask.Generated.FusedKeyRenamer in
+/-- **The renamer as it is in the source** (`slack`, `room`, `digestLen` are re-extracted from dask/optimization.py on
+    every run): for every limit `m > slack` and every digest of `digestLen` characters, two concatenated names get the
+    same key iff they are equal, or both are longer than `m - slack`, agree on the first `m - slack - room` characters
+    and have the same digest of the full name. A cut name is always longer than an uncut one. -/
+theorem renamer_collision_iff (m : Nat) (hm : slack < m) (digest : List Char → List Char)
+    (hd : ∀ x, (digest x).length = digestLen) (a b : List Char) :
+    renamerLimit (some m) digest a = renamerLimit (some m) digest b ↔
+      a = b ∨ (m - slack < a.length ∧ m - slack < b.length ∧ a.take (m - slack - room) = b.take (m - slack - room) ∧
+               digest a = digest b) := by
+  have h1 : m ≠ slack := by omega
+  have h2 : ¬ m < slack := by omega
+  have hr : ∀ x, renamerLimit (some m) digest x = enforceLimit (some (m - slack)) (m - slack - room) digest x := by
+    intro x
+    cases m with
+    | zero => omega
+    | succ m' => simp only [renamerLimit, h1, h2, if_false]
+  rw [hr a, hr b]
+  apply enforceLimit_eq_iff
+  · omega
+  · intro x; rw [hd x]; unfold room digestLen; omega
+
+open Dask.FusedName Dask.Generated.FusedKeyRenamer in
+/-- the key of a fused chain never exceeds the limit `m` (for `m ≥ slack + room`) -/
+theorem renamer_length_le (m : Nat) (hm : slack + room ≤ m) (digest : List Char → List Char)
+    (hd : ∀ x, (digest x).length = digestLen) (a : List Char) : (renamerLimit (some m) digest a).length ≤ m := by
+  have h1 : m ≠ slack := by unfold slack room at hm; unfold slack; omega
+  have h2 : ¬ m < slack := by unfold slack room at hm; unfold slack; omega
+  have hr : renamerLimit (some m) digest a = enforceLimit (some (m - slack)) (m - slack - room) digest a := by
+    cases m with
+    | zero => unfold slack room at hm; omega
+    | succ m' => simp only [renamerLimit, h1, h2, if_false]
+  rw [hr]
+  have := enforceLimit_length (m - slack) (m - slack - room) digest a
+  rw [hd a] at this
+  unfold slack room digestLen at *
+  omega
+
+open Dask.FusedName Dask.Generated.FusedKeyRenamer in
+/-- non-vacuity: the default limit satisfies the hypotheses -/
+example : slack < defaultMaxLen ∧ slack + room ≤ defaultMaxLen := by decide
 
 end Dask.C09
